@@ -968,6 +968,12 @@ func runProfile(g *Gen, profile string, nops int) {
 		default:
 			g.runOracle(nops) // real oracle keeper: prices, holders, epochs and votes in progress across the round trip
 		}
+		// a hand-written genesis carrying outgoing transactions (a section ExportGenesis never writes): the real InitGenesis
+		// against `importStamps`.  Drawn after the history so that the histories themselves keep their random stream.
+		for i := 0; i < 3; i++ {
+			seq := []uint64{0, 1, uint64(g.rng.Intn(5)), uint64(g.rng.Intn(1000)), 1 << 40}[g.rng.Intn(5)]
+			g.do(fmt.Sprintf("import_stamped %d %d", seq, g.rng.Intn(7)))
+		}
 	case "stress":
 		g.runStress(nops)
 	case "mloop":
